@@ -547,13 +547,40 @@ func init() {
 				}
 			}
 			g.emit("ofmany %s %s", showNested(inDom), showI32s(sizes))
+			// positions beyond their segment are in the domain as long as the shifted concatenation stays ascending
+			// (the theorem C12_ofMany_bits asks for nothing else): e.g. an overshooting segment followed by empty ones
+			if asc, any := shiftedAscending(subs, sizes); asc && any {
+				g.emit("ofmany %s %s", showNested(subs), showI32s(sizes))
+			}
+			if nseg > 0 && len(subs[nseg-1]) > 0 {
+				tail := g.intn(3) + 1
+				s2, z2 := append([][]int32{}, subs[:nseg-1]...), append([]int32{}, sizes...)
+				last := append([]int32{}, inDom[nseg-1]...)
+				last = append(last, last[len(last)-1]+1+int32(g.intn(200))) // overshoots whatever the size is
+				s2 = append(s2, last)
+				for t := 0; t < tail; t++ {
+					s2 = append(s2, []int32{})
+					z2 = append(z2, int32([]int{0, 1, 5, 64}[g.intn(4)]))
+				}
+				copy(s2, inDom[:nseg-1])
+				if asc, _ := shiftedAscending(s2, z2); asc {
+					g.emit("ofmany %s %s", showNested(s2), showI32s(z2))
+				}
+			}
 			ops := "-"
 			if len(bops) > 0 {
 				ops = strings.Join(bops, ";")
 			}
 			g.emit("builder %d %s", []int{0, 64, 1000}[g.intn(3)], ops)
 		}
+		g.emit("ofmany 70;- 1,1")
+		g.emit("ofmany 3,200;-;- 10,0,5")
+		g.emit("ofmany -;64;- 0,64,0")
+		g.emit("ofmany 0;63,64,127,128;-;- 1,1,0,1")
 		g.emit("builder 0 s:0:1;s:63:1;s:64:0;s:64:1;s:5:3;s:700:2")
+		g.emit("builder 0 e:64:64")
+		g.emit("builder 0 e:-:64;e:64:64;e:-:0;e:127,128:128")
+		g.emit("builder 64 e:64:64;e:-:64;e:-:1")
 		// sizes beyond the driver's reach: the clauses are evaluated on the real code (thorough tier and whenever
 		// the package's source changed)
 		g.emit("builderprobe 1,5:100000;-:3000000;2,99:100")
@@ -710,4 +737,24 @@ func init() {
 			g.emit("tb 128 65536 s200000,F128:65664,o,h200000,g199999,f65664:131200,o,h200000,c,o")
 		}
 	}
+}
+
+// shiftedAscending: is the concatenation of the segments, each shifted by the sum of the preceding sizes, strictly
+// ascending (what bitmap.Of supports)?  any: does some position reach beyond its segment?
+func shiftedAscending(subs [][]int32, sizes []int32) (asc bool, any bool) {
+	base, prev := int64(0), int64(-1)
+	for k, sub := range subs {
+		for _, p := range sub {
+			q := base + int64(p)
+			if q <= prev || q >= 1<<30 {
+				return false, any
+			}
+			prev = q
+			if p >= sizes[k] {
+				any = true
+			}
+		}
+		base += int64(sizes[k])
+	}
+	return true, any
 }
